@@ -6,11 +6,15 @@
 package c15lib
 
 import (
+	"context"
 	"fmt"
 	"math"
 	"os"
 	"os/exec"
+	"sort"
 	"strings"
+
+	"example.com/scion-time/base/crypto"
 
 	"verifharness/lib"
 )
@@ -137,11 +141,67 @@ func genTape(r *lib.Rng, npaths int) []uint32 {
 	return tape
 }
 
+// budgets of the expensive rounds of one run (a silent path costs the round's 0.4 s context, a pause 3.3 s)
+var silentBudget, pauseBudget int
+
 func genPeer(r *lib.Rng, h *histIn, rd *roundIn) {
 	for range h.cfg {
 		rd.modes = append(rd.modes, genModes(r))
 		rd.vals = append(rd.vals, genVals(r))
 	}
+	if len(h.cfg) > 0 && silentBudget > 0 && r.Intn(40) == 0 {
+		// one or two paths do not answer (at the first, second or third request of their client)
+		silentBudget--
+		for n := 1 + r.Intn(2); n > 0; n-- {
+			i := r.Intn(len(h.cfg))
+			rd.modes[i] = lib.Pick(r, []int64{3, 0, 0}, []int64{3, 3, 3}, []int64{2, 3, 0}, []int64{1, 3, 0}, []int64{1, 2, 3}, []int64{0, 3, 0})
+		}
+	}
+	if r.Intn(40) == 0 {
+		// the context is already cancelled: RandIntn gives up at the first rejected word (0 is rejected for every
+		// bound); with another first word the round may get past the sampling
+		rd.cancel = true
+		if r.Intn(6) != 0 {
+			rd.tape = append([]uint32{0}, rd.tape...)
+		}
+	}
+}
+
+// genPauseHist: two to five clients in interleaved mode on paths with pairwise distinct fingerprints enter
+// interleaved mode in the first rounds; then more than 3 s pass; in the rounds after the pause most paths are
+// still offered (the clients must keep them, without a reset, and start with a basic-mode request), some are not
+func genPauseHist(r *lib.Rng) *histIn {
+	h := &histIn{}
+	nc := 2 + r.Intn(4)
+	for i := 0; i < nc; i++ {
+		h.cfg = append(h.cfg, clientCfg{en: r.Intn(8) != 0, hasf: r.Intn(4) != 0})
+	}
+	var cur []int64
+	for f := int64(1); f <= int64(nc+r.Intn(3)); f++ {
+		cur = append(cur, f)
+	}
+	nr := 3 + r.Intn(3)
+	pauseAt := 2 + r.Intn(nr-2)
+	for ri := 0; ri < nr; ri++ {
+		if ri == pauseAt && r.Intn(2) == 0 && len(cur) > 1 {
+			cur = append([]int64(nil), cur[1:]...) // one path is withdrawn during the pause
+		}
+		var rd roundIn
+		rd.fps = append([]int64(nil), cur...)
+		rd.d = 0xFFFFFFFF
+		rd.tape = genTape(r, len(cur))
+		for range h.cfg {
+			if ri < pauseAt || r.Intn(4) != 0 {
+				rd.modes = append(rd.modes, []int64{0, 0, 0})
+			} else {
+				rd.modes = append(rd.modes, genModes(r))
+			}
+			rd.vals = append(rd.vals, genVals(r))
+		}
+		rd.pause = ri == pauseAt
+		h.rounds = append(h.rounds, rd)
+	}
+	return h
 }
 
 // the number of paths offered at the start: around the number of clients, or far more (40, 100, up to 128)
@@ -295,6 +355,9 @@ func Main(race bool) {
 			if l[0] == "mp.hist" || l[0] == "mp.pather" || l[0] == "mp.pather.dupia" {
 				replayHist(l[0], l[1], l[2])
 			}
+			if l[0] == "stat.uniform" {
+				replayStat(l[2])
+			}
 		}
 		return
 	}
@@ -303,7 +366,12 @@ func Main(race bool) {
 	if a.Tier == "thorough" {
 		nIntn, nSample, nHist, nPather, nDup = 300000, 100000, 30000, 15000, 1500
 	}
+	silentBudget, pauseBudget = 20, 2
+	if a.Tier == "thorough" {
+		silentBudget, pauseBudget = 300, 24
+	}
 	if race {
+		silentBudget, pauseBudget = 0, 0
 		forceNTS = true
 		nIntn, nSample, nHist, nPather, nDup = 0, 0, raceHists(a.Tier), raceHists(a.Tier)/4, 0
 	}
@@ -313,6 +381,9 @@ func Main(race bool) {
 	for i := 0; i < nHist && deadlineHits < 2; i++ {
 		runHist("", genHist(hr))
 	}
+	for i := 0; i < pauseBudget && deadlineHits < 2; i++ {
+		runHist("", genPauseHist(hr))
+	}
 	pr := r.Fork()
 	for i := 0; i < nPather && deadlineHits < 2; i++ {
 		runHist("", genPather(pr, false))
@@ -320,6 +391,9 @@ func Main(race bool) {
 	dr := r.Fork()
 	for i := 0; i < nDup && deadlineHits < 2; i++ {
 		runHist("", genPather(dr, true))
+	}
+	if !race {
+		genStat()
 	}
 	nd := 0
 	for e, n := range disturbed {
@@ -331,9 +405,12 @@ func Main(race bool) {
 		w.Close()
 		os.Exit(3)
 	}
+	if !race {
+		checkCoverage()
+	}
 	fmt.Printf("NOTE authenticated NTS requests answered by the peer=%d\n", thePeer.ntsOK)
-	fmt.Printf("NOTE histories=%d rounds dropped because their history was already more than 2 s old=%d histories dropped entirely=%d rounds that ran into their 10 s context deadline=%d malformed datagrams at the peer=%d\n",
-		nHist+nPather+nDup, slowRounds, abandoned, deadlineHits, thePeer.bad)
+	fmt.Printf("NOTE histories=%d rounds dropped because their history was already more than 2 s old=%d histories dropped entirely=%d rounds that ran into their 10 s context deadline=%d malformed datagrams at the peer=%d rounds with a silent path dropped because the machine was slow=%d\n",
+		nHist+nPather+nDup, slowRounds, abandoned, deadlineHits, thePeer.bad, slowSilent)
 }
 
 func raceHists(tier string) int {
@@ -391,5 +468,119 @@ func copyCases(path string) {
 		if len(f) == 4 && !strings.HasPrefix(line, "#") {
 			w.Case(f[0], f[1], f[2], f[3])
 		}
+	}
+}
+
+// ---- coverage floors ----
+// kindCount / tagCount: histories written per kind and per (kind, tag).  A slow machine makes the harness drop
+// rounds (2 s limit of a history): the clauses would go unexercised while the case counts stay up.  The run
+// fails instead.
+var kindCount = map[string]int{}
+var tagCount = map[string]int{}
+
+func countTags(kind, tags string) {
+	kindCount[kind]++
+	for _, t := range splitTags(tags) {
+		if t != "" {
+			tagCount[kind+":"+t]++
+		}
+	}
+}
+
+func checkCoverage() {
+	floors := []struct {
+		kind, tag string
+		pct       int
+	}{
+		{"mp.hist", "keep", 50}, {"mp.hist", "ilvreset", 30}, {"mp.hist", "drawn", 40}, {"mp.hist", "nt", 20},
+		{"mp.hist", "nofiltilv", 15}, {"mp.hist", "manypaths", 5}, {"mp.hist", "fewpaths", 30}, {"mp.hist", "nts", 5},
+		{"mp.pather", "refresh", 80}, {"mp.pather", "keep", 35}, {"mp.pather", "ilvreset", 20}, {"mp.pather", "gone", 25},
+		{"mp.pather", "nt", 10}, {"mp.pather.dupia", "refresh", 80}, {"mp.pather.dupia", "keep", 35},
+	}
+	bad := ""
+	for _, f := range floors {
+		n, c := kindCount[f.kind], tagCount[f.kind+":"+f.tag]
+		if n > 0 && c*100 < n*f.pct {
+			bad += fmt.Sprintf(" %s:%s=%d/%d(<%d%%)", f.kind, f.tag, c, n, f.pct)
+		}
+	}
+	for _, t := range []string{"silent", "cancel", "ctxerr", "pause", "keepold"} {
+		if tagCount["mp.hist:"+t]+tagCount["mp.pather:"+t] == 0 {
+			bad += " no history with tag " + t
+		}
+	}
+	total := kindCount["mp.hist"] + kindCount["mp.pather"] + kindCount["mp.pather.dupia"]
+	if (slowRounds+abandoned+slowSilent)*20 > total {
+		bad += fmt.Sprintf(" %d histories cut short because the machine is too slow (of %d)", slowRounds+abandoned+slowSilent, total)
+	}
+	if bad != "" {
+		fmt.Printf("coverage collapsed:%s\n", bad)
+		w.Close()
+		os.Exit(4)
+	}
+}
+
+// ---- stat.uniform: a statistical test on the real crypto/rand (not a proof) ----
+// args: what (0 = Sample, subsets in lexicographic order; 1 = RandIntn) k n N; outs: the count of every outcome
+func genStat() {
+	statSample(2, 5, 20000)
+	statSample(3, 7, 42000)
+	statIntn(6, 20000)
+}
+
+func subsetsOf(k, n int) [][]int {
+	var out [][]int
+	var rec func(start int, cur []int)
+	rec = func(start int, cur []int) {
+		if len(cur) == k {
+			out = append(out, append([]int(nil), cur...))
+			return
+		}
+		for i := start; i < n; i++ {
+			rec(i+1, append(cur, i))
+		}
+	}
+	rec(0, nil)
+	return out
+}
+
+func statSample(k, n, total int) {
+	idx := map[string]int{}
+	subs := subsetsOf(k, n)
+	for i, s := range subs {
+		idx[fmt.Sprint(s)] = i
+	}
+	counts := make([]int64, len(subs))
+	for t := 0; t < total; t++ {
+		res := make([]int, k)
+		_, err := crypto.Sample(context.Background(), k, n, func(dst, src int) { res[dst] = src })
+		if err != nil {
+			continue
+		}
+		sort.Ints(res)
+		if i, ok := idx[fmt.Sprint(res)]; ok {
+			counts[i]++
+		}
+	}
+	w.Case("stat.uniform", "nt", lib.V(lib.I(0), lib.I(int64(k)), lib.I(int64(n)), lib.I(int64(total))), lib.L(lib.IL(counts)))
+}
+
+func statIntn(n, total int) {
+	counts := make([]int64, n)
+	for t := 0; t < total; t++ {
+		v, err := crypto.RandIntn(context.Background(), n)
+		if err == nil && v >= 0 && v < n {
+			counts[v]++
+		}
+	}
+	w.Case("stat.uniform", "nt", lib.V(lib.I(1), lib.I(0), lib.I(int64(n)), lib.I(int64(total))), lib.L(lib.IL(counts)))
+}
+
+func replayStat(args string) {
+	vs := parseValues(args)
+	if vs[0].i64() == 0 {
+		statSample(vs[1].int(), vs[2].int(), vs[3].int())
+	} else {
+		statIntn(vs[2].int(), vs[3].int())
 	}
 }
